@@ -579,7 +579,14 @@ impl AtomicPosition {
         let (new, remainder) = ((diff / INTERVAL), (diff % INTERVAL));
         // We add `new` to `capacity`, subtract one for returning `true` from here,
         // then make sure it does not exceed a maximum of `MAX_BURST`.
-        capacity = Ord::min(MAX_BURST as u128, (capacity as u128) + (new as u128) - 1) as u8;
+        let uncapped = (capacity as u128) + (new as u128) - 1;
+        capacity = Ord::min(MAX_BURST as u128, uncapped) as u8;
+        // A full bucket does not hold a fraction of a token on top (a burst after an idle period
+        // would otherwise be one larger than `MAX_BURST` plus the rate)
+        let remainder = match uncapped >= MAX_BURST as u128 {
+            true => 0,
+            false => remainder,
+        };
 
         // Then, we just store `capacity` and `prev` atomically for the next iteration
         self.capacity.store(capacity, Ordering::Release);
